@@ -16,22 +16,42 @@ class C28(Prop):
     level = "exploration"
     exhaustive = True
     rule = (
-        "finite domain enumerated completely: start state in {fresh, migrations 1..p recorded in schema_migrations (p=1..N), legacy "
+        "finite domain enumerated completely: start state in {fresh, migrations 1..p recorded in a schema_migrations table created from "
+        "the DDL of the code under test (p=1..N), migrations 1..p recorded in a schema_migrations table in the SHIPPED on-disk layout "
+        "(frozen copy of the released DDL kept in this check; built as the released runner builds it: bookkeeping table first, then each "
+        "migration followed by its row; p=0..N, p=0 = bookkeeping table present and empty), legacy "
         "database with PRAGMA user_version=p and no schema_migrations table (p=1..N)} x prior handler rows {none, two rows, rows with NULLs "
         "and unicode} x number of run_migrations calls {1,2,3} x connection mode {same connection, new connection per call} x db kind "
         "{file, :memory:}; N is read from the packaged migration files. Fault families over the same start states: the k-th SQL "
         "statement that run_migrations prepares is refused (an error surfaces from the middle of a migration run; every k of the run is "
         "enumerated, quick tier: every 2nd), or the process stops at that statement boundary (the database files are copied at that "
         "instant and the copy is opened later, as after a kill); then run_migrations runs again without faults and must reach the same "
-        "final schema, every version recorded once, rows intact. Non-trivial = start state is not fresh, more than one run, or a fault."
+        "final schema, every version recorded once, rows intact. The final schema of EVERY start state -- every table, the schema_migrations "
+        "bookkeeping table included -- is compared with that of a fresh database migrated by the code under test ('yields the same final "
+        "schema'). Non-trivial = start state is not fresh, more than one run, or a fault."
     )
     assumptions = [
+        "the 'shipped' start states carry the bookkeeping table as existing deployments have it on disk at the pinned commit: "
+        "schema_migrations(package TEXT NOT NULL, version INTEGER NOT NULL, applied_at TEXT NOT NULL DEFAULT (datetime('now')), "
+        "PRIMARY KEY (package, version)); this layout is frozen in the check (SHIPPED_SCHEMA_MIGRATIONS_DDL) and deliberately NOT read "
+        "from the code under test, because a deployed database does not change when the code does",
         "earlier schema versions are built by executing the packaged migration SQL files themselves for versions <= p",
         "schemas are compared through PRAGMA table_info / index_list / index_info of every table, not by SQL text",
         "an interrupted run may raise; only the state it leaves behind is judged, by re-running the migrations on it (the statement's 'any earlier schema version' includes what an interrupted run leaves)",
         "statement boundaries are observed through sqlite3's authorizer callback (called when a statement is prepared); refusing = SQLITE_DENY there",
     ]
     min_nontrivial_frac = 0.0
+
+    # on-disk format of the bookkeeping table in existing deployments (released layout at the pinned commit); never derived from the
+    # code under test
+    SHIPPED_SCHEMA_MIGRATIONS_DDL = (
+        "CREATE TABLE IF NOT EXISTS schema_migrations (\n"
+        "    package TEXT NOT NULL,\n"
+        "    version INTEGER NOT NULL,\n"
+        "    applied_at TEXT NOT NULL DEFAULT (datetime('now')),\n"
+        "    PRIMARY KEY (package, version)\n"
+        ");\n"
+    )
 
     def setup(self):
         boot.seed_llama_agents()
@@ -48,7 +68,12 @@ class C28(Prop):
         self._ref = None
 
     def enumerate(self, tier):
-        starts = [["fresh", 0]] + [["recorded", p] for p in range(1, self.N + 1)] + [["legacy", p] for p in range(1, self.N + 1)]
+        starts = (
+            [["fresh", 0]]
+            + [["recorded", p] for p in range(1, self.N + 1)]
+            + [["legacy", p] for p in range(1, self.N + 1)]
+            + [["shipped", p] for p in range(0, self.N + 1)]
+        )
         for start, data, runs, mode, kind in itertools.product(starts, ["none", "two", "odd"], [1, 2, 3], ["same", "new"], ["file", "memory"]):
             if kind == "memory" and mode == "new":
                 continue  # a new connection to :memory: is a new database
@@ -63,6 +88,18 @@ class C28(Prop):
                 yield {"start": start, "data": "two", "kind": "file", "fault": ["crash", k]}
 
     def _build_start(self, conn, kind, p, data):
+        if kind == "shipped":
+            # a database as a released server left it: bookkeeping table in the released layout, then migration, row, migration, row ...
+            conn.executescript(self.SHIPPED_SCHEMA_MIGRATIONS_DDL)
+            for ver, sql in self.files:
+                if ver <= p:
+                    conn.executescript(sql)
+                    conn.execute("INSERT INTO schema_migrations (package, version) VALUES ('server', ?)", (ver,))
+            rows = self.ROWS[data] if p >= 1 else []
+            for row in rows:
+                conn.execute("INSERT INTO handlers (handler_id, workflow_name, status, ctx) VALUES (?,?,?,?)", row)
+            conn.commit()
+            return rows
         for ver, sql in self.files:
             if ver <= p:
                 conn.executescript(sql)
@@ -89,7 +126,10 @@ class C28(Prop):
             return sqlite3.SQLITE_OK
 
         conn.set_authorizer(auth)
-        self.migrate.run_migrations(conn)
+        try:
+            self.migrate.run_migrations(conn)
+        except Exception:  # noqa: BLE001  (a run that raises without any fault is reported by the fault-free case of this start state)
+            pass
         conn.set_authorizer(None)
         conn.close()
         return n[0]
@@ -210,6 +250,8 @@ class C28(Prop):
             self.run_fault(case, r)
             r.nontrivial = any(c.startswith("fault_") and c != "fault_point_not_reached" for c in r.classes)
             r.classes.append(f"start_{kind}")
+            if kind == "shipped":
+                r.classes.append(f"shipped_layout_p{p}")
             return r
         tmp = None
         if case["kind"] == "file":
@@ -220,19 +262,7 @@ class C28(Prop):
         try:
             conn = sqlite3.connect(path)
             # build the earlier schema from the packaged SQL itself
-            for ver, sql in self.files:
-                if ver <= p:
-                    conn.executescript(sql)
-            if kind == "recorded":
-                conn.executescript(self.migrate._SCHEMA_MIGRATIONS_DDL)
-                for v in range(1, p + 1):
-                    conn.execute("INSERT INTO schema_migrations (package, version) VALUES ('server', ?)", (v,))
-            elif kind == "legacy":
-                conn.execute(f"PRAGMA user_version={p}")
-            rows = self.ROWS[case["data"]] if p >= 1 else []
-            for row in rows:
-                conn.execute("INSERT INTO handlers (handler_id, workflow_name, status, ctx) VALUES (?,?,?,?)", row)
-            conn.commit()
+            rows = self._build_start(conn, kind, p, case["data"])
             snaps = []
             for i in range(case["runs"]):
                 if case["mode"] == "new" and i > 0:
@@ -278,6 +308,8 @@ class C28(Prop):
                 shutil.rmtree(tmp, ignore_errors=True)
         r.nontrivial = kind != "fresh" or case["runs"] > 1
         r.classes += [f"start_{kind}", f"runs_{case['runs']}"]
+        if kind == "shipped":
+            r.classes.append(f"shipped_layout_p{p}")
         return r
 
 
